@@ -1737,3 +1737,20 @@ def listing_excerpt_one_line(run, R="MPT"):
                 bad.append(f.loc(t["span"]))
     run.check(n >= 2 and not bad, R, R + "|listing|excerpt-one-line", "-", "source excerpts are put on listing rows with their line breaks replaced (%d site(s))" % n,
               "a listing puts a source excerpt on a row as it is (%s): an item whose source spans several lines (a string literal with a line break) produces a row without position, outside the comment in the tcgame format" % (", ".join(bad) or "excerpt sites not found"))
+
+
+def bool_field_value_used(run, R="MPT"):
+    """a flag field of a `{...}` block that is given a value takes that value (`fill = false` does not switch filling on): the
+    answer of AstFields::extract_as_bool is not a constant on every path - it reads the field's expression when there is one"""
+    fs = [f for f in run.prog.real_fns() if f.id.endswith("fields::AstFields::extract_as_bool")]
+    if len(fs) != 1:
+        run.violation(R, R + "|fields|bool-value-used", "-", "mechanism not found: AstFields::extract_as_bool")
+        return
+    f = fs[0]
+    pays = []
+    for bi, si, st in f.stmts():
+        if st["k"] == "assign" and st["place"]["l"] == 0 and not st["place"]["p"] and st["rv"]["k"] == "agg" and st["rv"].get("variant") == "Ok":
+            pays.append(const_int(st["rv"]["ops"][0]))
+    ok = bool(pays) and any(p is None for p in pays)
+    run.check(ok, R, R + "|fields|bool-value-used", f.loc(), "a flag field given a value takes that value",
+              "AstFields::extract_as_bool answers only constants (%s): the value written for a flag is ignored, so `#bankdef a { ..., fill = false }` switches filling ON" % pays)
